@@ -1,4 +1,4 @@
-# re-pins C18_pin_routes / C18_pin_skeleton in Props.lean from the generated facts
+# re-pins C18_pin_routes / C18_pin_dispatch / C18_pin_skeleton in Props.lean from the generated facts
 import sys,re
 lean=sys.argv[1]
 g=open(lean+'/SemaModel/Generated/FactsC18.lean').read()
@@ -6,8 +6,15 @@ i=g.index('def skeleton'); j=g.index(']\n',i)
 skel=g[g.index(':= [',i)+3:j+1]
 i=g.index('def routes')
 routes=g[g.index(':= [',i)+3:g.index(']\n',i)+1].replace('", "','",\n  "')
+i=g.index('def dispatch'); j=g.index(']\n',i)
+disp=g[g.index(':= [',i)+3:j+1]
+DOC = '''/-- the recursion sites the model's `Query.valid`, `Query.validSchema`, `Query.reach` and `Query.live` transcribe: which list
+(`q.And` / `q.Or`) and which filter `Query.Validate`, `Query.ValidateSchema` and `indexManager.Search` (shard/index/search.go)
+hand on, under which case of their switches — `_and` runs / checks the `_and` list, `_or` the `_or` list, a vector / text leaf
+its own filter, and `Validate` (alone) looks at every block and both lists -/
+'''
 p=lean+'/SemaModel/C18/Props.lean'
 s=open(p).read()
 a=s.index('theorem C18_pin_routes')
-s=s[:a]+'theorem C18_pin_routes : FactsC18.routes = '+routes+' := rfl\n\ntheorem C18_pin_skeleton : FactsC18.skeleton = '+skel+' := rfl\n\nend Sema.C18\n'
+s=s[:a]+'theorem C18_pin_routes : FactsC18.routes = '+routes+' := rfl\n\n'+DOC+'theorem C18_pin_dispatch : FactsC18.dispatch = '+disp+' := rfl\n\ntheorem C18_pin_skeleton : FactsC18.skeleton = '+skel+' := rfl\n\nend Sema.C18\n'
 open(p,'w').write(s)
